@@ -24,6 +24,7 @@ struct KFd {
 	// epoll membership (single epoll instance is enough for cjet)
 	bool in_epoll = false; uint32_t ep_events = 0; uint64_t ep_data = 0; bool ep_pending = false; uint64_t ep_seq = 0;
 	int ep_owner = -1;
+	bool spurious_in = false;       // fault: reported readable once although nothing is there (the following read/accept answers EAGAIN)
 };
 
 struct FileLogEntry { std::string op; bool exists = false, dur_exists = false; std::string image, dur_image; std::vector<std::string> torn; int change = 0; int call = 0; };
